@@ -612,7 +612,7 @@ class QubitCircuit:
                     raise NotImplementedError(exception)
 
         match = False
-        for basis_unit in ["CSIGN", "ISWAP", "SQRTSWAP", "SQRTISWAP"]:
+        for basis_unit in ["ISWAP", "CSIGN", "SQRTSWAP", "SQRTISWAP"]:
             if basis_unit in basis_2q:
                 match = True
                 _resolve_2q_basis(basis_unit, qc_temp, temp_resolved)
